@@ -150,6 +150,7 @@ def run(ctx):
     base.stream_recorder(ctx, scns, pid=PID)
     from engines import warc_client
     warc_client.stream_client(ctx, ctx.scale(200, 3000), PID)
+    warc_client.stream_mixed(ctx, ctx.scale(100, 1500), PID)
 
 
 def search(ctx):
